@@ -2,6 +2,7 @@
 from __future__ import annotations
 
 import ast
+import contextlib
 import io
 import json
 import re
@@ -9,7 +10,7 @@ import time
 import tokenize
 import warnings
 
-from .. import e2e, gens
+from .. import e2e, gens, guard, shape
 from ..common import Rng, hx, unhx
 from ..runner import Check
 from ..translate import esc, templates
@@ -111,26 +112,82 @@ def campaign_lex(ck: Check, n: int) -> None:
     camp.wall_s = time.time() - t0
 
 
+# characters by plane / category for literal slots: the escape tables and `repr` treat them differently (C0/C1 controls,
+# the line boundaries of str.splitlines, BMP edge code points, private use, noncharacters, and the planes above the BMP
+# — anything that is written as a `\\uXXXX` pair by a JSON-style escaper comes back as two lone surrogates)
+PLANE_CHARS = ["\x01", "\x1f", "\x7f", "\x80", "\x85", "\x9f", "\xa0", "\xad", "\u2028", "\u2029", "\ud7ff", "\ue000", "\ufeff", "\ufffd", "\uffff",
+               "\U00010000", "\U0001d465", "\U0001f600", "\U00020bb7", "\U000e0001", "\U000f0000", "\U0010ffff"]
+KEY_ALPHABET = [PLANE_CHARS, PLANE_CHARS, gens.QUOTES, gens.CONTROLS, ["\\", "\\\\", "\\u", "\\ud83d", "\\N{BULLET}"], gens.ASCII, gens.NONASCII, [" ", "-", "."]]
+
+
+def real_typed_dict_key(s: str) -> str:
+    """what the generator writes between the quotes of a functional-syntax TypedDict key for the wire name `s`"""
+    from datamodel_code_generator.model.typed_dict import DataModelField
+    from datamodel_code_generator.types import DataType
+
+    return DataModelField(name="sanitised_name", original_name=s, data_type=DataType(type="str")).key
+
+
 def campaign_translate(ck: Check, n: int) -> None:
-    camp = ck.campaign("esc.quoted (Model.Escape over generated tables) vs str.translate of the real tables")
+    camp = ck.campaign("esc.quoted (Model.Escape over generated tables) vs str.translate of the real enum table / the real typed_dict DataModelField.key; the key literal evaluates to the wire name")
     t0 = time.time()
     rng = ck.rng.fork("translate")
     tabs = esc.tables()
     names = {"enum": "enumTable", "typeddict": "typedDictKeyTable"}
     cases = [(rng.choice(list(names)), gens.adversarial(rng, 8)) for _ in range(n)]
+    # after the stream above (which stays what it was): wire names over the plane alphabet, for the real key property
+    rng2 = ck.rng.fork("translate-keys")
+    cases += [("typeddict", gens.adversarial(rng2, 6, KEY_ALPHABET)) for _ in range(n // 2)] + [("typeddict", c) for c in PLANE_CHARS]
     replies = ck.driver.run([f"esc.quoted {t} {hx(s)}" for t, s in cases])
     for (t, s), rep in zip(cases, replies):
         camp.evaluations += 1
-        impl = "'" + s.translate(str.maketrans(tabs[names[t]])) + "'"
+        if t == "typeddict":
+            try:
+                impl = "'" + real_typed_dict_key(s) + "'"
+            except Exception as e:  # noqa: BLE001 - the property is gone / raises: the code no longer has the modelled shape
+                impl = f"raise {type(e).__name__}"
+        else:
+            impl = "'" + s.translate(str.maketrans(tabs[names[t]])) + "'"
         model = unhx(rep.split(" ")[1]) if rep.startswith("ok ") else rep
         camp.hit(t)
-        if any(c in tabs[names[t]] for c in s):
+        for c in gens.classify_string(s):
+            camp.hit(f"str:{c}")
+        if shape.has_astral(s):
+            camp.hit("str:astral")
+        if any(c in tabs[names[t]] for c in s) or any(ord(c) > 127 for c in s):
             camp.distinct.add((t, s))
         if model != impl:
             ck.disagree(camp, {"table": t, "s": s}, model, impl)
         elif len(camp.samples) < 2:
             camp.samples.append({"table": t, "s": s, "quoted": impl})
+        if t == "typeddict" and not impl.startswith("raise "):
+            # the property itself, on the real function: the literal the template writes around the key is the wire name
+            try:
+                with warnings.catch_warnings():
+                    warnings.simplefilter("ignore")
+                    ok = ast.literal_eval(impl) == s
+            except (SyntaxError, ValueError):
+                ok = False
+            if not ok:
+                # first as a complete generate() case (the replay is then a document), else as the function-level failure
+                before = len(ck.failures) + sum(ck.known_hits.values())
+                if s.strip():
+                    oracle_case(ck, camp, "member_name", s, "typing.TypedDict", {}, None)
+                if len(ck.failures) + sum(ck.known_hits.values()) == before:
+                    ck.fail({"oracle": "typed_dict_key_roundtrip", "site": "member_name", "kind": "typing.TypedDict", "trigger": plane_of(s), "rendering": "DataModelField.key"},
+                            {"key": s}, f"TypedDict key literal {impl!r} written for the member {s!r} does not evaluate to it")
     camp.wall_s = time.time() - t0
+
+
+def plane_of(s: str) -> str:
+    """coarse class of the most unusual character of a planted text (classification of literal failures)"""
+    if any(ord(c) > 0xFFFF for c in s):
+        return "astral"
+    if any(ord(c) < 32 or 0x7F <= ord(c) <= 0x9F for c in s):
+        return "control"
+    if any(ord(c) > 127 for c in s):
+        return "bmp_non_ascii"
+    return "other"
 
 
 PATTERN_ALPHABET = [["\\", "\\\\", "'", '"', "\\'", "\t", "\n", "\x00", "\x7f", "\x1f"], list("^$.*+d[]()|a1 "), ["\\d", "\\.", "\\w+", "é", "\x80"]]
@@ -325,6 +382,10 @@ def norm_ws(s: str) -> str:
     return re.sub(r"\s+", " ", s).strip()
 
 
+# the render-boundary observer (vlib/props/render_probe.py); set by run() for the duration of the e2e campaign
+PROBE = None
+
+
 def oracle_case(ck: Check, camp, slot: str, s: str, model: str, opts: dict, formatters) -> None:
     """The property's own oracle on one (slot, string, kind, options) case."""
     camp.evaluations += 1
@@ -338,8 +399,13 @@ def oracle_case(ck: Check, camp, slot: str, s: str, model: str, opts: dict, form
     except Exception:  # noqa: BLE001 - e.g. a text that GraphQL cannot carry
         camp.hit("not_expressible")
         return
-    adv = e2e.run_generate(adv_doc, input_file_type=input_type_of(slot), model=model, opts=opts, formatters=formatters)
+    with (PROBE.capture(inp) if PROBE is not None else contextlib.nullcontext()) as observed:
+        adv = e2e.run_generate(shape.doc_text(adv_doc), input_file_type=input_type_of(slot), model=model, opts=opts, formatters=formatters)
+        if observed is not None:
+            observed.files = adv.files
     neu = e2e.run_generate(neu_doc, input_file_type=input_type_of(slot), model=model, opts=opts, formatters=formatters)
+    if shape.has_astral(s):
+        camp.hit("str:astral")
     base = {"oracle": "planted_string", "site": slot, "kind": model, "trigger": trigger_of(slot, s)}
     base["rendering"] = rendering_of(slot, s, adv.code)
     if adv.hang:
@@ -361,7 +427,7 @@ def oracle_case(ck: Check, camp, slot: str, s: str, model: str, opts: dict, form
         # whether a name is kept or replaced by a sanitised one plus alias is the generator's decision (C07): the shape must
         # be that of ONE of the two neutral documents — a name that is kept, a name that needs an alias
         other = EXTRA_SLOTS[slot] if n == "neutralname" else "neutralname"
-        alt = e2e.run_generate(build_doc(slot, other), input_file_type=input_type_of(slot), model=model, opts=opts, formatters=formatters)
+        alt = e2e.run_generate(shape.doc_text(build_doc(slot, other)), input_file_type=input_type_of(slot), model=model, opts=opts, formatters=formatters)
         if alt.ok and e2e.skeleton(adv.code) == e2e.skeleton(alt.code):
             neu, n = alt, other
     if slot != "member_name" and e2e.skeleton(adv.code) != e2e.skeleton(neu.code):
@@ -449,7 +515,20 @@ def campaign_e2e(ck: Check, n: int) -> None:
         for model in ("pydantic.BaseModel", "pydantic_v2.BaseModel"):
             for o in ({}, {"field_constraints": True}):
                 oracle_case(ck, camp, "pattern", s, model, dict(o), None)
+    # literal slots × every model kind × characters by plane (own stream, after the ones above): what an escape table
+    # leaves alone and what `repr` / a JSON-style escaper rewrites differ exactly on these
+    rng3 = ck.rng.fork("e2e-planes")
+    for slot in PLANE_SLOTS:
+        for model in e2e.MODEL_KINDS:
+            texts = ["k" + "".join(rng3.sample(PLANE_CHARS, 3)) + "z", gens.adversarial(rng3, 4, KEY_ALPHABET) + "q"]
+            if n > 400:
+                texts += ["a" + c + "b" for c in PLANE_CHARS]
+            for s in texts:
+                oracle_case(ck, camp, slot, s, model, dict(rng3.choice(OPTION_POOL)), None)
     camp.wall_s = time.time() - t0
+
+
+PLANE_SLOTS = ["member_name", "enum", "const", "default", "examples", "field_description"]
 
 
 # texts for the extra slots: quote / backslash (a name or key between hand-written quotes), lone CR and the other
@@ -485,12 +564,29 @@ def search_bad_table_char(ck: Check) -> None:
             c = unhx(rep.split(" ")[1])
             for s in (c, "a" + c + "b", c + "'", "\\" + c, c * 2):
                 oracle_case(ck, camp, slot, s, kind, {}, None)
-    # every ASCII char and table key in each literal slot
-    for slot, kind in (("enum", "pydantic_v2.BaseModel"), ("member_name", "typing.TypedDict"), ("default", "pydantic_v2.BaseModel")):
-        for c in [chr(i) for i in range(0, 128)]:
+    if ck.failures:
+        return
+    # the inputs of every disagreement of the escape correspondence, embedded into a complete document
+    for d in ck.disagreements:
+        if isinstance(d.input, dict) and isinstance(d.input.get("s"), str) and d.input.get("table") in ("enum", "typeddict"):
+            slot, kind = ("member_name", "typing.TypedDict") if d.input["table"] == "typeddict" else ("enum", "pydantic_v2.BaseModel")
+            oracle_case(ck, camp, slot, d.input["s"] or "a", kind, {}, None)
+            if ck.failures:
+                return
+    # every ASCII character, every table key and one representative of every plane / category in each literal slot:
+    # whatever mechanism replaced a table must still write a literal that evaluates to the planted text
+    chars = [chr(i) for i in range(0, 128)] + PLANE_CHARS
+    for slot, kind in (("member_name", "typing.TypedDict"), ("enum", "pydantic_v2.BaseModel"), ("default", "pydantic_v2.BaseModel"),
+                       ("const", "pydantic.BaseModel"), ("member_name", "msgspec.Struct"), ("member_name", "pydantic_v2.BaseModel")):
+        for c in chars:
             oracle_case(ck, camp, slot, "a" + c + "b", kind, {}, None)
             if ck.failures:
                 return
+    rng = ck.rng.fork("search-keys")
+    for _ in range(300):
+        oracle_case(ck, camp, "member_name", gens.adversarial(rng, 5, KEY_ALPHABET) + "k", "typing.TypedDict", {}, None)
+        if ck.failures:
+            return
 
 
 def known_findings(ck: Check) -> None:
@@ -507,21 +603,23 @@ def known_findings(ck: Check) -> None:
 
 def run(ck: Check) -> None:
     quick = ck.tier == "quick"
-    ck.translate("EscTables", esc.generate())
-    ck.translate("Templates", templates.generate())
+    # a translator that throws (the code no longer has the shape it reads) leaves a stale table: broken obligations, not exit 2
+    shape.translate(ck, "EscTables", esc.generate)
+    shape.translate(ck, "Templates", templates.generate)
     # the templates themselves (jinja2's own parse) for the Lean lexical analysis: template_lexically_closed,
     # python_site_table_is_lean_analysis are re-checked by the kernel against the sources of this run
     from ..translate import template_ast
     from . import tpl_campaign
 
-    ck.translate("TemplateAst", template_ast.generate())
+    shape.translate(ck, "TemplateAst", template_ast.generate)
     from ..translate import code_sites
 
-    ck.translate("CodeSites", code_sites.generate())
+    shape.translate(ck, "CodeSites", code_sites.generate)
     from . import tpl_search
 
     ck.search_hooks.append(tpl_search.search_c10)
     ck.prove()
+    shape.mark_stale(ck)
     ck.assumptions += [
         "CPython's lexer is modelled by Dcg/Py/Lex.lean (validated in this run against tokenize+literal_eval)",
         "Jinja2 renders literal template text verbatim and interpolates values without transformation other than the named filters",
@@ -534,14 +632,23 @@ def run(ck: Check) -> None:
         "(discharged in Lean for values of plain characters; for repr/escape-table/docstring values by the literal theorems above, "
         "un-indented); the statement is about the final lexical state, the per-site state sets are those of the same sound analysis",
     ]
-    campaign_lex(ck, 3000 if quick else 40000)
-    campaign_translate(ck, 600 if quick else 6000)
-    campaign_docstring(ck, 800 if quick else 10000)
-    campaign_pattern(ck, 1000 if quick else 15000)
-    campaign_e2e(ck, 400 if quick else 6000)
-    tpl_campaign.campaign_lex_auto(ck, 600 if quick else 6000)  # last: the older campaigns keep their random streams
+    # a campaign that throws is a broken correspondence (guard.campaign), never an infrastructure error
+    guard.campaign(ck, campaign_lex, 3000 if quick else 40000)
+    guard.campaign(ck, campaign_translate, 600 if quick else 6000)
+    guard.campaign(ck, campaign_docstring, 800 if quick else 10000)
+    guard.campaign(ck, campaign_pattern, 1000 if quick else 15000)
+    # the value hypothesis of template_lexically_closed / sites_in_allowed_states (NeutralValues) is observed on the real
+    # render contexts of every planted-string run
+    global PROBE
+    from . import render_probe
+
+    PROBE = render_probe.Probe()
+    guard.campaign(ck, campaign_e2e, 400 if quick else 6000)
+    probe, PROBE = PROBE, None
+    guard.campaign(ck, render_probe.evaluate, probe, render_probe.ASSUMED_BY_C10)
+    guard.campaign(ck, tpl_campaign.campaign_lex_auto, 600 if quick else 6000)  # last: the older campaigns keep their random streams
     ck.search_hooks.append(search_bad_table_char)
-    known_findings(ck)
+    guard.campaign(ck, known_findings)
 
 
 def replay(ck: Check, path: str) -> int:
@@ -550,6 +657,24 @@ def replay(ck: Check, path: str) -> int:
     camp = ck.campaign("replay")
     if "slot" in inp:
         oracle_case(ck, camp, inp["slot"], inp["string"], inp["model"], inp.get("opts", {}), inp.get("formatters"))
+    elif "key" in inp:
+        lit = "'" + real_typed_dict_key(inp["key"]) + "'"
+        try:
+            ok = ast.literal_eval(lit) == inp["key"]
+        except (SyntaxError, ValueError):
+            ok = False
+        if not ok:
+            ck.fail(data.get("classification") or {"oracle": "typed_dict_key_roundtrip"}, inp, f"TypedDict key literal {lit!r} does not evaluate to the member name {inp['key']!r}")
+    elif "pattern" in inp:
+        from datamodel_code_generator.model.pydantic.types import pattern_literal
+
+        lit = pattern_literal(inp["pattern"])
+        try:
+            ok = ast.literal_eval(lit) == inp["pattern"]
+        except (SyntaxError, ValueError):
+            ok = False
+        if not ok:
+            ck.fail(data.get("classification") or {"oracle": "pattern_literal_roundtrip"}, inp, f"pattern_literal gives {lit!r}")
     for f in ck.failures:
         print("REPLAY-FAILS:", json.dumps(f.classification), f.observed[:300])
     if not ck.failures:
